@@ -26,7 +26,7 @@ Definition lit_of_tok (t : token) : option lit :=
   | TDate y m d => Some (LDate y m d)
   | TDec _ m s => Some (LDec m s)
   | TInt n => Some (LInt n)
-  | TStr _ s => Some (LStr s)
+  | TStr s => Some (LStr s)
   | TId s => if str_eqb s w_null then Some LNull else None
   | TKw KTRUE => Some (LBool true)
   | TKw KFALSE => Some (LBool false)
@@ -55,7 +55,7 @@ Fixpoint p_lits (acc : list lit) (ts : list token) : list lit * list token :=
 Fixpoint primary_loop (a : expr) (ts : list token) : expr * list token :=
   match ts with
   | TDot :: TId n :: r => primary_loop (EAttr a n) r
-  | TLB :: TStr _ k :: TRB :: r => primary_loop (ESubscript a k) r
+  | TLB :: TStr k :: TRB :: r => primary_loop (ESubscript a k) r
   | _ => (a, ts)
   end.
 
@@ -642,7 +642,7 @@ Definition p_statement (fuel : nat) (ts : list token) : option stmt :=
     | _ => None
     end
   | TKw KJOURNAL :: r =>
-    let '(acc, r0) := match r with TStr _ s :: r' => (Some s, r') | _ => (None, r) end in
+    let '(acc, r0) := match r with TStr s :: r' => (Some s, r') | _ => (None, r) end in
     let '(sf, r1) := p_at_opt r0 in
     match p_from_opt fuel r1 with
     | Some (fc, []) => Some (SJournal acc sf fc)
